@@ -67,11 +67,11 @@ Definition at_set_stores (s : atomic_state) (st : list astore) (cnt : nat) : ato
            (at_mutating s) (at_last_loads s) (at_last_nonload s) st cnt.
 
 Definition st_set_mo (x : astore) (mo : vv) : astore :=
-  mkStore (st_value x) (st_hb x) mo (st_sync x) (st_seen x) (st_seqcst x).
+  mkStore (st_value x) (st_hb x) mo (st_sync x) (st_seen x) (st_seqcst x) (st_id x) (st_rmw_src x).
 Definition st_set_seen (x : astore) (seen : list (option nat)) : astore :=
-  mkStore (st_value x) (st_hb x) (st_mo x) (st_sync x) seen (st_seqcst x).
+  mkStore (st_value x) (st_hb x) (st_mo x) (st_sync x) seen (st_seqcst x) (st_id x) (st_rmw_src x).
 Definition st_set_value (x : astore) (v : N) : astore :=
-  mkStore v (st_hb x) (st_mo x) (st_sync x) (st_seen x) (st_seqcst x).
+  mkStore v (st_hb x) (st_mo x) (st_sync x) (st_seen x) (st_seqcst x) (st_id x) (st_rmw_src x).
 
 (* ---- the four track_* checks ---- *)
 Definition track_load (s : atomic_state) (caus : vv) : atomic_state + panic :=
@@ -125,18 +125,59 @@ Definition track_unsync_mut (s : atomic_state) (caus : vv) : atomic_state + pani
                    (at_last_nonload s) (at_stores s) (at_cnt s))
   end end end end.
 
-(* ---- State::store ---- *)
-Definition atomic_store (s : atomic_state) (me : nat) (caus released : vv)
-           (sync0 : vv) (value : N) (o : ord) : atomic_state :=
+(* ---- State::store_from ---- *)
+Definition src_eqb (a b : option (nat * nat)) : bool :=
+  match a, b with
+  | Some (x, y), Some (x', y') => Nat.eqb x x' && Nat.eqb y y'
+  | None, None => true
+  | _, _ => false
+  end.
+
+(* one pass of the RMW-atomicity loop: a store ordered after the source of an RMW
+   is ordered after the RMW's own store *)
+Definition rmw_atomicity_pass (stores : list astore) (src : option (nat * nat)) (mo : vv) : vv * bool :=
+  fold_left
+    (fun acc x =>
+       let '(mo, changed) := acc in
+       match st_rmw_src x with
+       | Some (slot, sid) =>
+           if src_eqb (Some (slot, sid)) src then (mo, changed)
+           else
+             let srcst := nth slot stores store_default in
+             if negb (Nat.eqb (st_id srcst) sid) then (mo, changed)
+             else if vv_le (st_mo srcst) mo && negb (vv_le (st_mo x) mo)
+                  then (vv_join mo (st_mo x), true)
+                  else (mo, changed)
+       | None => (mo, changed)
+       end)
+    stores (mo, false).
+
+Fixpoint rmw_atomicity (fuel : nat) (stores : list astore) (src : option (nat * nat)) (mo : vv) : vv :=
+  match fuel with
+  | 0 => mo
+  | S f =>
+      let '(mo', changed) := rmw_atomicity_pass stores src mo in
+      if changed then rmw_atomicity f stores src mo' else mo'
+  end.
+
+Definition atomic_store_from (s : atomic_state) (me : nat) (caus released : vv)
+           (sync0 : vv) (value : N) (o : ord) (src : option (nat * nat)) : atomic_state :=
   let idx := aindex (at_cnt s) in
   let hb := caus in
   let mo := fold_left
               (fun mo x => if is_seen_by_current (st_seen x) caus then vv_join mo (st_mo x) else mo)
               (at_stores s) hb in
+  let mo := rmw_atomicity (S MAX_ATOMIC_HISTORY) (at_stores s) src mo in
   let sync := sync_store sync0 caus released o in
   let seen := seen_touch seen_new me (vv_get caus me) in
-  at_set_stores s (list_set (at_stores s) idx (mkStore value hb mo sync seen (is_seq_cst o)))
+  at_set_stores s (list_set (at_stores s) idx
+                     (mkStore value hb mo sync seen (is_seq_cst o) (at_cnt s) src))
                 (S (at_cnt s)).
+
+(* State::store *)
+Definition atomic_store (s : atomic_state) (me : nat) (caus released : vv)
+           (sync0 : vv) (value : N) (o : ord) : atomic_state :=
+  atomic_store_from s me caus released sync0 value o None.
 
 Definition atomic_new (me : nat) (caus released : vv) (value : N) : atomic_state + panic :=
   let s0 := mkAtomic vv_new vv_new vv_new vv_new false (repeat None MAX_THREADS) None
@@ -270,7 +311,8 @@ Definition atomic_rmw (s : atomic_state) (me : nat) (caus released : vv) (index 
           | inl s4 =>
               let sync := st_sync (get_store s4 index) in
               let caus' := sync_load caus sync so in
-              let s5 := atomic_store s4 me caus' released sync next so in
+              let s5 := atomic_store_from s4 me caus' released sync next so
+                          (Some (index, st_id (get_store s4 index))) in
               inl (s5, caus', prev, true)
           end
       | None =>
